@@ -126,6 +126,44 @@ def run_controls(src_root: str = "/repo", jobs: int = 8, only: Optional[str] = N
     return res
 
 
+def controls_for_property(prop: str, src_root: str, base_keys: set, jobs: int = 8):
+    """Control run restricted to one property, relative to the findings the base
+    tree already has (so it stays meaningful on a tree that already violates a rule).
+    Returns a list of (name, kind, verdict, note)."""
+    from sa.controls import CONTROLS
+
+    tasks = []
+    for c in CONTROLS:
+        if c["kind"] == "positive" and prop not in c.get("props", []):
+            continue
+        expect = c.get("expect", [])
+        if c["kind"] == "positive":
+            # only the expectations that belong to this property
+            num = str(int(prop[1:]))
+            expect = [e for e in expect if e.startswith("R" + num + ".") or e == "R" + num or (e.startswith("R" + num) and not e[len("R" + num):][:1].isdigit())]
+            if not expect:
+                continue
+        tasks.append((c["name"], c["kind"], c["edits"], [prop], expect, src_root))
+    if jobs > 1 and len(tasks) > 1:
+        with ProcessPoolExecutor(max_workers=jobs) as ex:
+            res = list(ex.map(_one, tasks))
+    else:
+        res = [_one(t) for t in tasks]
+    out = []
+    for (name, kind, verdict, note, fired), t in zip(res, tasks):
+        if verdict == "skipped":
+            out.append((name, kind, "skipped", note))
+            continue
+        new = [f for f in fired if f"{f[1]}|{f[2]}" not in base_keys]
+        if kind == "positive":
+            hit = [f for f in new if any(f[1].startswith(e) for e in t[4])]
+            out.append((name, kind, "pass" if hit else "FAIL", "" if hit else f"expected a new finding of {t[4]}, got {sorted({f[1] for f in new})} {note}"))
+        else:
+            errs = "errors" in note and "errors []" not in note
+            out.append((name, kind, "pass" if not new and not errs else "FAIL", "" if not new and not errs else f"new findings on a behaviour-preserving edit: {new[:3]} {note}"))
+    return out
+
+
 def main() -> int:
     ap = argparse.ArgumentParser()
     ap.add_argument("--jobs", type=int, default=min(16, os.cpu_count() or 4))
